@@ -69,7 +69,7 @@ PROPS["C08"] = dict(
 PROPS["C12"] = dict(
     title="A call limit never changes a result silently",
     verus_units=[("core", {}, "")],
-    kani=[], searcher=None,
+    kani=[], searcher=["state"],
     design_ref="DESIGN.md section 5, C12",
     technique="contract-based deductive verification (Verus) with a ghost 'refused' bit set where inc_call_check_limit refuses; refusal law proved per operation; three operations violate it (known findings F4)",
     level_text="Unary formulation of the two-run property: limit constant and counter monotone (frame), inc_call_check_limit refuses iff the limit is reached and records it in a ghost bit, every operation whose closures obey the refusal law obeys it too (a refusal during the call makes the call fail), state() turns an Err with the limit reached into the 'call limit reached' error. optional, repeat and negative lookahead do NOT obey the law: recorded as known findings F4 (isolated failing obligations).",
@@ -90,11 +90,11 @@ PROPS["C15"] = dict(
 PROPS["C10"] = dict(
     title="Line/column arithmetic and error rendering are correct for all text",
     verus_units=[("lines", {}, ""), ("pairs", {}, "")],
-    kani=["inmod_c10"], searcher=None,
+    kani=["inmod_c10", "lines_enum"], searcher=["lines"],
     design_ref="DESIGN.md section 5, C10",
-    technique="contract-based deductive verification (Verus) of the index arithmetic over vstd's UTF-8 theory; bounded Kani harnesses (planned) for the iterator-chain functions",
+    technique="contract-based deductive verification (Verus) of the index arithmetic over vstd's UTF-8 theory; bounded Kani harnesses for the iterator-chain functions and an exhaustive native enumeration of short texts for the clauses outside every contract (error construction and rendering)",
     level_text="Unbounded proof: LineIndex::new records exactly the offsets after every newline character (loop invariant over chars()); LineIndex::line_col returns (1 + newlines before the offset, 1 + characters since the last newline) for every boundary offset inside the indexed prefix; Span::new / Position::new succeed exactly on ordered boundary offsets; merge_spans; line_of and LinesSpan::next yield exactly the line [ls, le) containing the cursor and advance to the start of the next line - the last two given the assumed contracts of find_line_start / find_line_end.",
-    level_note="Assumed: find_line_start / find_line_end (char_indices/rev/skip_while/find chains), std partition_point and chars().count() contracts, str range indexing helper. Not covered yet: Position::line_col (Peekable), Error::new_from_pos/new_from_span and Display (format!, String building).",
+    level_note="Assumed: find_line_start / find_line_end (char_indices/rev/skip_while/find chains), std partition_point and chars().count() contracts, str range indexing helper. Outside every contract: Position::line_col (Peekable), Error::new_from_pos/new_from_span and Display (format!, String building) - decided only by bounded stand-ins: Kani harnesses on strings of <= 3 characters and the lines_search enumeration (every text of <= 5 characters over a 6-character mixed alphabet, every offset and offset pair, all access paths, rendered marker position).",
     assumptions=["Verus + Z3 + vstd (UTF-8 theory); extractor with rewrites R3,R5,R6,R11,R16,R17,R23",
                  "std contracts on trusted helpers: partition_point (on a sorted Vec<usize>), chars().count(), str range indexing, str::get -> SliceIndex::get, core::cmp::min/max on usize",
                  "ASSUMED contracts: Position::find_line_start == ls, Position::find_line_end == le (byte-level line specs)"],
